@@ -9,14 +9,13 @@ package server
 // from the property statement (filter the known record list directly).
 
 import (
-	"encoding/binary"
 	"fmt"
-	"hash/crc32"
 	"math/rand"
 	"sort"
 	"strings"
 	"time"
 
+	"github.com/kafscale/platform/addons/processors/sql-processor/internal/verifc36"
 	"github.com/kafscale/platform/addons/processors/sql-processor/internal/verifkit/kbatch"
 )
 
@@ -30,21 +29,30 @@ type c36Rec struct {
 }
 
 type c36Seg struct {
-	Topic     string
-	Part      int32
-	Base      int64
-	Key       string
-	IdxKey    string
-	SideKey   string
-	Recs      []c36Rec
-	Completed bool   // .kfs + .index present and footer magic intact
-	Why       string // why not completed
-	Sidecar   bool   // time-index side-car present when the queries run
-	MinTS     int64
-	MaxTS     int64
+	Topic      string
+	Part       int32
+	Base       int64
+	Key        string
+	IdxKey     string
+	SideKey    string
+	Recs       []c36Rec
+	Completed  bool   // .kfs + .index present and footer magic intact
+	Why        string // why not completed
+	Sidecar    bool   // time-index side-car present when the queries run
+	pendingIdx []byte // index bytes of an in-flight segment (uploaded later by c36Grow)
+	MinTS      int64
+	MaxTS      int64
+}
+
+type c36PartState struct {
+	off     int64
+	ts      int64
+	step    int64
+	pattern string
 }
 
 type c36Layout struct {
+	pstate     map[int32]*c36PartState
 	Case       int
 	Bucket     string
 	Namespace  string
@@ -66,73 +74,36 @@ type c36Layout struct {
 	TotalRecs  int
 }
 
-var c36Castagnoli = crc32.MakeTable(crc32.Castagnoli)
-
-// c36BuildSegment renders segment and index bytes like storage.BuildSegment
-// (index interval 1: one entry per batch, as IndexBuilder does for interval<=1
-// after the first entry once sinceLast >= 1).
-func c36BuildSegment(base int64, batches [][]byte, counts []int32, baseOffsets []int64, lastOffset int64, createdMs int64) (seg []byte, idx []byte) {
-	var body []byte
-	type ent struct {
-		off int64
-		pos int32
-	}
-	var ents []ent
-	total := int32(0)
-	for i, b := range batches {
-		ents = append(ents, ent{baseOffsets[i], int32(32 + len(body))})
-		body = append(body, b...)
-		total += counts[i]
-	}
-	hdr := make([]byte, 32)
-	copy(hdr[0:4], "KAFS")
-	binary.BigEndian.PutUint16(hdr[4:], 1)
-	binary.BigEndian.PutUint16(hdr[6:], 0)
-	binary.BigEndian.PutUint64(hdr[8:], uint64(base))
-	binary.BigEndian.PutUint32(hdr[16:], uint32(total))
-	binary.BigEndian.PutUint64(hdr[20:], uint64(createdMs))
-	binary.BigEndian.PutUint32(hdr[28:], 0)
-	foot := make([]byte, 16)
-	binary.BigEndian.PutUint32(foot[0:], crc32.Checksum(body, c36Castagnoli))
-	binary.BigEndian.PutUint64(foot[4:], uint64(lastOffset))
-	copy(foot[12:], "END!")
-	seg = append(append(append([]byte{}, hdr...), body...), foot...)
-
-	idx = make([]byte, 16, 16+12*len(ents))
-	copy(idx[0:4], "IDX\x00")
-	binary.BigEndian.PutUint16(idx[4:], 1)
-	binary.BigEndian.PutUint32(idx[6:], uint32(len(ents)))
-	binary.BigEndian.PutUint32(idx[10:], 1)
-	binary.BigEndian.PutUint16(idx[14:], 0)
-	for _, e := range ents {
-		var x [12]byte
-		binary.BigEndian.PutUint64(x[0:], uint64(e.off))
-		binary.BigEndian.PutUint32(x[8:], uint32(e.pos))
-		idx = append(idx, x[:]...)
-	}
-	return seg, idx
-}
-
 func c36SegKeys(prefix, topic string, part int32, base int64) (kfs, idx, side string) {
 	stem := fmt.Sprintf("%s%s/%d/segment-%020d", prefix, topic, part, base)
 	return stem + ".kfs", stem + ".index", stem + ".kfst"
 }
 
-// c36GenPartition writes the segments of one partition into the store.
+// c36GenPartition appends nseg segments to one partition of the store (a first
+// call starts the partition, later calls model the broker flushing more data).
 func c36GenPartition(rng *rand.Rand, s3 *c36S3, l *c36Layout, topic string, part int32, pattern string, nseg int, allowIncomplete bool) []*c36Seg {
 	var out []*c36Seg
-	off := int64(0)
-	switch rng.Intn(6) {
-	case 0:
-		off = int64(1 + rng.Intn(5000)) // earlier segments deleted by retention
-	case 1:
-		off = 5_000_000_000 + int64(rng.Intn(1000)) // beyond int32
+	st := l.pstate[part]
+	if topic != l.Topic || st == nil {
+		st = &c36PartState{pattern: pattern}
+		switch rng.Intn(6) {
+		case 0:
+			st.off = int64(1 + rng.Intn(5000)) // earlier segments deleted by retention
+		case 1:
+			st.off = 5_000_000_000 + int64(rng.Intn(1000)) // beyond int32
+		}
+		st.ts = int64(1_000_000_000_000) + int64(rng.Intn(400_000_000_000)) // 2001..2014
+		st.step = int64(1 + rng.Intn(2000))
+		if rng.Intn(5) == 0 {
+			st.step = 0
+		}
+		if topic == l.Topic {
+			l.pstate[part] = st
+		}
 	}
-	ts := int64(1_000_000_000_000) + int64(rng.Intn(400_000_000_000)) // 2001..2014
-	step := int64(1 + rng.Intn(2000))
-	if rng.Intn(5) == 0 {
-		step = 0
-	}
+	off, ts, step := st.off, st.ts, st.step
+	pattern = st.pattern
+	defer func() { st.off, st.ts = off, ts }()
 	for si := 0; si < nseg; si++ {
 		seg := &c36Seg{Topic: topic, Part: part, Base: off, Completed: true}
 		seg.Key, seg.IdxKey, seg.SideKey = c36SegKeys(l.Prefix, topic, part, off)
@@ -197,15 +168,16 @@ func c36GenPartition(rng *rand.Rand, s3 *c36S3, l *c36Layout, topic string, part
 				seg.MaxTS = r.TS
 			}
 		}
-		kfs, idx := c36BuildSegment(seg.Base, batches, counts, bases, off-1, ts)
+		kfs, idx := verifc36.BuildSegment(seg.Base, batches, counts, bases, off-1, ts)
 		// a segment is "completed" when the broker has uploaded both objects; an
 		// in-flight one (index not there yet), an orphan index, or a payload without
 		// the END! trailer is not
-		if allowIncomplete && rng.Intn(9) == 0 {
+		if allowIncomplete && rng.Intn(7) == 0 {
 			seg.Completed = false
-			switch rng.Intn(3) {
+			switch rng.Intn(4) % 3 { // in-flight (index not uploaded yet) is the common one
 			case 0:
 				seg.Why = "index_missing"
+				seg.pendingIdx = idx
 				s3.Put(l.Bucket, seg.Key, kfs)
 			case 1:
 				seg.Why = "kfs_missing"
@@ -229,7 +201,7 @@ func c36GenPartition(rng *rand.Rand, s3 *c36S3, l *c36Layout, topic string, part
 }
 
 func c36GenLayout(rng *rand.Rand, s3 *c36S3, caseNo int, thorough bool) *c36Layout {
-	l := &c36Layout{Case: caseNo, Bucket: fmt.Sprintf("c36b%d", caseNo), TSPattern: map[int32]string{}}
+	l := &c36Layout{Case: caseNo, Bucket: fmt.Sprintf("c36b%d", caseNo), TSPattern: map[int32]string{}, pstate: map[int32]*c36PartState{}}
 	l.Namespace = []string{"ns", "prod-1", "a/b", "default", "kafscale-demo", ""}[rng.Intn(6)]
 	if l.Namespace != "" {
 		l.Prefix = l.Namespace + "/"
@@ -290,6 +262,40 @@ func c36GenLayout(rng *rand.Rand, s3 *c36S3, caseNo int, thorough bool) *c36Layo
 	}
 	l.ReqBound = rng.Intn(4) == 0
 	return l
+}
+
+// c36Grow models the broker going on while the SQL server runs: in-flight
+// segments get their index object (and so become completed), and 0-2 new
+// segments are flushed per partition. No side-cars exist for the new ones.
+func c36Grow(rng *rand.Rand, s3 *c36S3, l *c36Layout) (added, completed int) {
+	for _, s := range l.Segs {
+		if !s.Completed && s.Why == "index_missing" && rng.Intn(4) > 0 {
+			s3.Put(l.Bucket, s.IdxKey, s.pendingIdx)
+			s.Completed, s.Why = true, ""
+			completed++
+		}
+	}
+	for _, p := range l.Parts {
+		n := rng.Intn(3)
+		if n == 0 {
+			continue
+		}
+		l.Segs = append(l.Segs, c36GenPartition(rng, s3, l, l.Topic, p, "", n, true)...)
+		added += n
+	}
+	sort.SliceStable(l.Segs, func(i, j int) bool {
+		if l.Segs[i].Part != l.Segs[j].Part {
+			return l.Segs[i].Part < l.Segs[j].Part
+		}
+		return l.Segs[i].Base < l.Segs[j].Base
+	})
+	l.TotalRecs = 0
+	for _, s := range l.Segs {
+		if s.Completed {
+			l.TotalRecs += len(s.Recs)
+		}
+	}
+	return added, completed
 }
 
 func (l *c36Layout) ConfigYAML(endpoint, listen string) string {
@@ -462,6 +468,29 @@ func c36GenQuery(rng *rand.Rand, l *c36Layout) *c36Query {
 		}
 		q.TsMin, q.TsMax = &a, &b
 		q.TsForm = []string{"gele", "between"}[rng.Intn(2)]
+	}
+	if q.TsForm != "" && rng.Intn(3) == 0 {
+		// a narrow window right at one segment's min/max timestamp: where wrong statistics would bite
+		sg := l.Segs[rng.Intn(len(l.Segs))]
+		edge := sg.MaxTS
+		if rng.Intn(2) == 0 {
+			edge = sg.MinTS
+		}
+		a := edge - int64(rng.Intn(3))
+		b := edge + int64(rng.Intn(3))
+		switch q.TsForm {
+		case "ge":
+			q.TsMin = &a
+		case "le":
+			q.TsMax = &b
+		default:
+			if rng.Intn(2) == 0 {
+				b += int64(rng.Intn(20000))
+			} else {
+				a -= int64(rng.Intn(20000))
+			}
+			q.TsMin, q.TsMax = &a, &b
+		}
 	}
 	if q.TsForm != "" {
 		q.TsLit = []string{"numeric", "numeric", "datetime", "rfc3339"}[rng.Intn(4)]
